@@ -44,11 +44,9 @@ Definition c_add (x : prule) (c : list prule) : list prule := if mem_prule x c t
 Definition c_remove (x : prule) (c : list prule) : list prule := filter (fun y => negb (prule_eqb x y)) c.
 Definition c_matches (pt : string) (fi : nat) (fvs : list string) (y : prule) : bool :=
   String.eqb (fst y) pt && matches_spec fi fvs (snd y).
-Fixpoint c_replace (o n : prule) (c : list prule) : list prule :=
-  match c with
-  | [] => []
-  | y :: t => if prule_eqb o y then n :: t else y :: c_replace o n t
-  end.
+(* every stored copy of o becomes n (the stored content is a set, so there is at most one) *)
+Definition c_replace (o n : prule) (c : list prule) : list prule :=
+  map (fun y => if prule_eqb o y then n else y) c.
 Definition c_update (pt : string) (o n : rule) (c : list prule) : list prule :=
   if mem_prule (pt, o) c then
     (if mem_prule (pt, n) c then c_remove (pt, o) c else c_replace (pt, o) (pt, n) c)
